@@ -1,2 +1,2 @@
 (* Proofs/C02.v — gathers the C02 proof files. *)
-From BNP Require Export Proofs.C02_table Proofs.C02_int Proofs.C02_misc Proofs.C02_e2e Proofs.C02_fmt Proofs.C02_lines Proofs.C02_sam Proofs.C02_info Proofs.C02_geno Proofs.C02_fasta Proofs.C02_fasta_nf Proofs.C02_ic Proofs.C02_infolist Proofs.C02_genocodes.
+From BNP Require Export Proofs.C02_table Proofs.C02_int Proofs.C02_misc Proofs.C02_e2e Proofs.C02_fmt Proofs.C02_lines Proofs.C02_sam Proofs.C02_info Proofs.C02_geno Proofs.C02_fasta Proofs.C02_fasta_nf Proofs.C02_ic Proofs.C02_infolist Proofs.C02_genocodes Proofs.C02_select.
